@@ -2,7 +2,6 @@ package hotline
 
 import (
 	"encoding/binary"
-	"errors"
 	"fmt"
 	"io"
 	"io/fs"
@@ -61,12 +60,11 @@ func GetFileNameList(path string, ignoreList []string) (fields []Field, err erro
 				return fields, fmt.Errorf("error following symlink: %s: %w", resolvedPath, err)
 			}
 
+			// Skip aliases that cannot be resolved (missing target, alias pointing to itself, ...) instead of failing
+			// the whole listing.
 			rFile, err := os.Stat(resolvedPath)
-			if errors.Is(err, os.ErrNotExist) {
-				continue
-			}
 			if err != nil {
-				return fields, err
+				continue
 			}
 
 			if rFile.IsDir() {
